@@ -39,3 +39,18 @@ Proof.
   exact (proj1 (@c06_clean P parse nmea_hdr c cs Hw Hp Hq)).
 Qed.
 Print Assumptions C06_clean_socket.
+
+(* a reader that has reported the end of its data and is polled again after whole frames were appended delivers, in
+   the two passes together, exactly what one pass over the whole stream delivers (the reader keeps no state besides
+   the stream position: reading the appended part is reading a stream of its own) *)
+Theorem C06_clean_appended : forall (P : Type) (parse : N -> bytes -> result P) (nmea_hdr : N -> bool) c cs1 cs2,
+  Forall (wf_chunk nmea_hdr) cs1 -> Forall (wf_chunk nmea_hdr) cs2 -> parse_protocol_only parse -> quitonerror c <> 2 ->
+  items (file_read_all parse nmea_hdr c (flatten (cs1 ++ cs2))) =
+  items (file_read_all parse nmea_hdr c (flatten cs1)) ++ items (file_read_all parse nmea_hdr c (flatten cs2)).
+Proof.
+  intros P parse nmea_hdr c cs1 cs2 H1 H2 Hp Hq.
+  rewrite (proj1 (@c06_clean P parse nmea_hdr c (cs1 ++ cs2) (proj2 (Forall_app _ _ _) (conj H1 H2)) Hp Hq)).
+  rewrite (proj1 (@c06_clean P parse nmea_hdr c cs1 H1 Hp Hq)), (proj1 (@c06_clean P parse nmea_hdr c cs2 H2 Hp Hq)).
+  clear. induction cs1 as [|ch t IH]; [reflexivity|]. cbn [app deliver_all]. now rewrite IH, app_assoc.
+Qed.
+Print Assumptions C06_clean_appended.
